@@ -284,6 +284,19 @@ def decompose_and_order(graph, component, component_name, bo_start=0):
     # I save tags as key:(type, value), so "SO":(i, '123')
     coordinates = list(int(new_graph[n].tags["SO"][1]) for n in traversal_scaffold_only)
 
+    # a single scaffold node cannot orient the traversal: use the reference nodes in the two end bubbles
+    if len(coordinates) == 1:
+        ref_sn = new_graph[traversal_scaffold_only[0]].tags["SN"]
+        for end, flipped in ((traversal[0], False), (traversal[-1], True)):
+            if scaffold_node_types[end] == "b":
+                ref_so = [
+                    int(new_graph[n].tags["SO"][1])
+                    for n in bubbles[int(end)]
+                    if new_graph[n].tags.get("SN") == ref_sn
+                ]
+                if ref_so and (min(ref_so) > coordinates[0]) != flipped:
+                    traversal.reverse()
+                    break
     # make sure that the traversal is in ascending order
     if coordinates[0] > coordinates[-1]:
         traversal.reverse()
